@@ -15,6 +15,12 @@ package main
 // the random histories, c09CloseInterleavings() enumerates, for one request and
 // every order of its replies, a client CLOSE / REQ with the request's id at
 // every position of the history.
+//
+// One handler value serves every connection of a relay: c09TwoSessions() and
+// c09GenerateMulti() run two or three sessions on the SAME NewMergeHandler
+// result, with requests of the same id in flight on several sessions and the
+// children's replies interleaved across the sessions; every session is judged
+// on its own.
 
 import (
 	"encoding/json"
@@ -50,6 +56,66 @@ func c09Reply(r *common.Rand, q *c09Req) *mMsg {
 
 func c09Generate(r *common.Rand, overlap bool) mCase {
 	n := []int{2, 2, 2, 3, 3, 4}[r.Intn(6)]
+	return c09GenerateN(r, overlap, n)
+}
+
+// c09GenerateMulti: two or three sessions of ONE handler value.  Every session
+// gets a history of its own from c09GenerateN (same number of children, the
+// same small id universes, so that the sessions have requests with the same id
+// in flight at the same time, answered differently by "their" children); the
+// histories are interleaved at random.
+func c09GenerateMulti(r *common.Rand) mCase {
+	n := []int{2, 2, 2, 3, 3, 4}[r.Intn(6)]
+	k := 2
+	if r.Chance(25) {
+		k = 3
+	}
+	cs := make([]mCase, k)
+	for j := range cs {
+		cs[j] = c09GenerateN(r.Fork(uint64(j)), r.Chance(30), n)
+	}
+	return mergeInterleave(r.Fork(99), cs)
+}
+
+// c09TwoSessions: two sessions of one handler, two children, the same request
+// (EVENT q resp. COUNT q) submitted on both, then the four replies in all 24
+// orders.  The children answer differently on the two sessions (child 0
+// rejects on session 0 only; the counts differ), so an aggregate that mixes
+// the sessions, or comes out on the other session, shows.  Part of every tier.
+func c09TwoSessions() []mCase {
+	var out []mCase
+	const q = "q"
+	type rep struct{ s, ch int }
+	reps := []rep{{0, 0}, {0, 1}, {1, 0}, {1, 1}}
+	for _, count := range []bool{false, true} {
+		for _, perm := range permutations(4) {
+			c := mCase{N: 2, Sess: 2}
+			for s := 0; s < 2; s++ {
+				if count {
+					c.Steps = append(c.Steps, mStep{K: "count", Sub: q, S: s})
+				} else {
+					c.Steps = append(c.Steps, mStep{K: "event", ID: q, S: s})
+				}
+			}
+			for _, k := range perm {
+				rp := reps[k]
+				var m *mMsg
+				if count {
+					m = &mMsg{T: "count", Sub: q, C: uint64([][]int{{3, 7}, {5, 1}}[rp.s][rp.ch])}
+				} else if rp.s == 0 && rp.ch == 0 {
+					m = &mMsg{T: "ok", ID: q, Acc: false, P: "blocked: ", Msg: "b0"}
+				} else {
+					m = &mMsg{T: "ok", ID: q, Acc: true}
+				}
+				c.Steps = append(c.Steps, mStep{K: "child", I: rp.ch, S: rp.s, M: m})
+			}
+			out = append(out, c)
+		}
+	}
+	return out
+}
+
+func c09GenerateN(r *common.Rand, overlap bool, n int) mCase {
 	c := mCase{N: n}
 	ids := []string{"x1", "x2", "x3"}
 	subs := []string{"c1", "c2"}
@@ -369,11 +435,17 @@ func init() {
 			// 40% of the histories may re-use an id that is still in flight; they come last
 			firstOverlap := n - n*2/5
 			cases = append(cases, c09CloseInterleavings()...)
+			cases = append(cases, c09TwoSessions()...)
 			if n >= mergeExhaustiveFrom {
 				cases = append(cases, c09Exhaustive()...)
 			}
 			for i := 0; i < n; i++ {
 				cases = append(cases, c09Generate(root.Fork(uint64(i)), i >= firstOverlap))
+			}
+			// one handler value serving several sessions: n/8 more histories
+			multi := root.Fork(1 << 40)
+			for i := 0; i < n/8; i++ {
+				cases = append(cases, c09GenerateMulti(multi.Fork(uint64(i))))
 			}
 		}
 		for _, c := range runMergeAll("c09", cases) {
